@@ -97,3 +97,5 @@ def check(ctx):
     check_iter_filter(ctx)
     check_snapshot_list(ctx)
     c08.check_readers(ctx)
+    from . import c04
+    c04.check_write(ctx)       # a snapshot taken during a write must not cover a half-inserted batch
